@@ -168,9 +168,9 @@ theorem body_flag (fl : Flags) (m8 : Nat) (s : Slot) (hs : s.isField = false) (b
 theorem held_nil_of_slots (e : Enc) (h : ∀ s, e.get s = []) : e.held = [] := by
   have h1 := h .storage; have h2 := h .commands; have h3 := h .ring; have h4 := h .hasher
   have h5 := h .table; have h6 := h .cbuf; have h7 := h .lbuf; have h8 := h .ext; have h9 := h .self
-  have h10 := h .mem; have h11 := h .input; have h12 := h .tmp; have h13 := h .tmp2
-  simp only [Enc.get] at h1 h2 h3 h4 h5 h6 h7 h8 h9 h10 h11 h12 h13
-  simp [Enc.held, h1, h2, h3, h4, h5, h6, h7, h8, h9, h10, h11, h12, h13]
+  have h10 := h .mem; have h11 := h .input; have h12 := h .tmp; have h13 := h .tmp2; have h14 := h .aux
+  simp only [Enc.get] at h1 h2 h3 h4 h5 h6 h7 h8 h9 h10 h11 h12 h13 h14
+  simp [Enc.held, h1, h2, h3, h4, h5, h6, h7, h8, h9, h10, h11, h12, h13, h14]
 
 /-- invariant + nothing referenced + nothing lost ⇒ the ledger is balanced -/
 theorem live_nil {w : W} (hw : Inv w) (hh : w.enc.held = []) (hl : w.lost = []) : (judge w.log).live = [] := by
